@@ -217,6 +217,42 @@ def run(ctx: Ctx) -> None:
             finally:
                 torch.randint = real_randint
 
+    # ---- inputs of other dtypes: the rounding always runs on a float32 copy, so a value representable in float16 /
+    #      bfloat16 / float64 gives, for every draw, the float32 result cast to that dtype
+    for (E, M, sb) in ((4, 3, 3), (2, 0, 2), (5, 2, 4), (3, 1, 5)):
+        f = FPFormat(E, M, "stochastic", srbits=sb)
+        R = 1 << sb
+        B_ = 2 ** (E - 1)
+        # magnitudes from the format's subnormal range up to its maximum, all multiples of 2^-10 * min_sub spacing
+        base_ = torch.tensor([0.0, 0.25, 0.5, 0.75, 1.0, 1.3125, 1.5, 2.0, 2.5, 3.0, 5.0, 6.5], dtype=torch.float32)
+        x1 = torch.cat([base_ * 2.0 ** (1 - B_ - M), base_ * 2.0 ** (1 - B_), base_, -base_ * 2.0 ** (1 - B_)])
+        for dt_ in (torch.float64, torch.float16, torch.bfloat16):
+            xs_ = x1.to(dt_).to(torch.float32)          # keep only what the dtype can hold
+            key = {"E": E, "M": M, "srbits": sb, "input_dtype": str(dt_)}
+
+            def enum_randint2(low, high, size, dtype=None, **kw):
+                return (low + torch.arange(size[0], dtype=dtype or torch.int64)).unsqueeze(1).expand(tuple(size)).contiguous()
+
+            torch.randint = enum_randint2
+            try:
+                with ctx.guard("C14:dtype", key):
+                    X = xs_.unsqueeze(0).expand(R, len(xs_)).contiguous()
+                    want = f.quantise(X)
+                    got = f.quantise(X.to(dt_))
+                    ctx.evaluations += R * len(xs_)
+                    distinct += R * len(xs_)
+                    ctx.bump("input-dtypes", R * len(xs_))
+                    if got.dtype != dt_ or got.shape != X.shape:
+                        ctx.violation("C14:dtype:shape", "dtype or shape of the result differs from the input's", key, str(got.dtype))
+                    elif not torch.equal(got.to(torch.float32), want.to(dt_).to(torch.float32)):
+                        bad_ = (got.to(torch.float32) != want.to(dt_).to(torch.float32)).any(dim=0).nonzero()
+                        j = int(bad_[0]) if len(bad_) else 0
+                        ctx.violation("C14:dtype:value", "stochastic rounding of a non-float32 tensor differs from rounding the same "
+                                      "values in float32 (result not a neighbour / wrong probability)", {**key, "x": float(xs_[j])},
+                                      {"got": got[:, j].float().unique().tolist()[:4], "want": want[:, j].unique().tolist()[:4]})
+            finally:
+                torch.randint = real_randint
+
     ctx.distinct_extra += distinct
     ctx.samples = [{"E": 4, "M": 3, "srbits": 5, "x_bits": 0x3FA66666, "draws": "all 32"}]
 
